@@ -17,3 +17,36 @@ add("C07", "fault_enumeration", "runtime monitoring with fault injection at the 
 add("C09", "exploration", RM + " in 4 (quick) / 7 (thorough) build flavours: optimised, -N, -N -l, race+checkptr, ASan, go1.26.8 (+ -N)",
     "All 4051 encodings of strings of length<=2 over {00,01,7f,80,ff}: Cmp on all ordered pairs (thorough) or 512 per row (quick) against strings.Compare of the bit texts; CmpUpto/StrCmpUpto of every encoding against all 156 plain strings of length<=3 and keyzoo pairs across the 8-byte fast path; StrCmpUpto from 6 call-site shapes; identical case list in every flavour so stack-garbage dependence shows as a panic or a differing result.",
     "Bit strings longer than 26 bytes are not generated; unsafe misuse is visible only with the memory layouts these two compilers produce.", "DESIGN.md 3/C09")
+add("C01", "exploration", RM + " (Rank64/Rank128/IndexRank* vs a bit-by-bit counting sweep at every position)",
+    "Every position of ~2*10^4 (quick) / 4*10^5 (thorough) bitmaps - full product of extreme word classes for 0..3 words, all 8x256 byte-lane words, zoo bitmaps up to 2000 words - is checked for both rank flavours, both index options and the index shapes.",
+    "Bitmaps beyond the enumerated sub-domains are sampled; trusts the counting sweep.", "DESIGN.md 3/C01")
+add("C02", "exploration", RM + " (Select32/Select32R64 vs the naive list of 1-positions; complete per 16-bit lane)",
+    "The in-word search is executed for all 65536 values of each 16-bit lane with the other lanes all-0 and all-1 (524288 words), all 2-bit words, gap-structured multi-word bitmaps around i=32k-1,32k,32k+1 and n-1, and zoo bitmaps; every valid i, both select flavours, index contents, rank(select(i))=i.",
+    "Multi-word behaviour beyond 500 words is not exercised; i outside [0,n) is outside the property.", "DESIGN.md 3/C02")
+add("C03", "exploration", RM + " in two builds (release and -tags debug) with digest comparison; literal pre-order list + walk oracle",
+    "All masks x all nodes up to height 10 (quick, 2.8*10^6 pairs) / 13 (thorough, 1.8*10^8) against the literal recursive pre-order definition, structured masks x paths of every length for heights 11..30 against the walk oracle, in both builds; any debug contract panic on a valid input or a digest difference between the builds is a violation.",
+    "Heights 14..30 are sampled (structured), not enumerated. The debug flavour's liveness is itself checked (malformed paths must panic there).", "DESIGN.md 3/C03")
+add("C04", "exploration", RM + " (AllPaths/Decode vs literal pre-order list / interval-pruned DFS)",
+    "All masks of height<=6 (quick) / <=9 (thorough) with all or sampled (from,to) pairs from a boundary-rich candidate set, windows at heights up to 30, Decode on 7 bitmap shapes incl. shorter/longer/all-ones and round trips of random subsets.",
+    "Decode bit k is the k-th stored node of the literal list (not the library's PathToIndex; C03 ties them). Large heights only with small windows.", "DESIGN.md 3/C04")
+add("C05", "exploration", "runtime monitoring by COMPLETE enumeration: every (height, index) pair executed (2^32-33), expected path from the literal pre-order successor chain",
+    "Both tiers execute IndexToPath and PathToIndex on every index of every full tree of height 0..30 and compare with the node obtained by walking pre-order successors from an anchor located by descent; exhaustive: true. Thorough repeats it with go1.26.8.",
+    "Trusts the successor function and descent anchor (cross-checked with the walk oracle at every block start).", "DESIGN.md 3/C05")
+add("C08", "exploration", RM + " (bitword FromStr/Get/ToStr/FirstDiff/FromStrs/ToStrs vs bit-at-a-time word extraction; all 1- and 2-byte strings)",
+    "All 256 one-byte and 65536 two-byte strings x 4 widths, random strings to 40 bytes, ToStr on every slice length 0..17, FirstDiff over all (from,end) windows of structured pairs.",
+    "Strings longer than 40 bytes not generated; widths limited to the four the package defines.", "DESIGN.md 3/C08")
+add("C10", "exploration", RM + " (path-word accessors vs (h,l,prefix); numeric order vs pre-order on all pairs of small heights)",
+    "All 16369 path words of height<=12 field-checked; all ordered pairs of nodes for every height<=8 (quick) / <=10 (thorough); heights 13..32 with extreme/random prefixes at every length and sampled related pairs.",
+    "Order claim for heights above 10 is sampled.", "DESIGN.md 3/C10")
+add("C12", "exploration", RM + " (Of/OfMany/ToArray/Get*/Builder vs a position-set model; Builder as an online history monitor checked after every op)",
+    "Ascending lists x 9 size-argument variants with word count, bits, ToArray round trip and probes at every position in [-130, 64len+130) plus int32 extremes; zoo round trips; OfMany segment lists; Builder histories of 1..12 ops checked after every op.",
+    "OfMany compared only when the merged list is ascending; Builder compared as a set modulo trailing zero words.", "DESIGN.md 3/C12")
+add("C13", "exploration", RM + " (NextOne/PrevOne vs linear-scan tables; ALL ranges of 1..3-word bitmaps)",
+    "Every range 0<=i<=end<=64*len of structured (empty words between 1-bits, bits at 0/63) and zoo bitmaps of 1..3 words, plus boundary-biased sampled ranges on 4..64-word bitmaps.",
+    "Longer bitmaps are sampled.", "DESIGN.md 3/C13")
+add("C16", "exploration", RM + " (FirstDiffBits/CountPrefixes vs bitwise scan and explicit sets of truncated bit strings)",
+    "All ordered pairs of the 40 strings of length<=3 over {00,01,ff}, chunk-boundary stems (7..25 bytes), keyzoo lists; CountPrefixes on all sub-ranges of small ascending sets x 8 values of m.",
+    "Key sets larger than 40 keys are not generated for CountPrefixes.", "DESIGN.md 3/C16")
+add("C17", "exploration", RM + " (ShardByPrefix output checked by a pure checker: boundaries, size bound, exact LCP, strict prefix order)",
+    "All ascending subsets (size 1..6) of a 12-string universe designed around the recursion x every maxSize, keyzoo sets up to 300 keys x 9 maxSize values, thorough: 5000-key sets with 40-byte common prefixes.",
+    "Only the clauses of the statement are checked (not maximality of shards).", "DESIGN.md 3/C17")
